@@ -26,8 +26,8 @@ def getTicksize (freq tfN tfD rrN rrD bpm : Int) : Int :=
   let t := rawTicks freq (tfN * rrN) (tfD * rrD) bpm
   if t < minTicks then minTicks else t
 
-/-- the frame cap in sample frames: `XMP_MAX_FRAMESIZE / 2` -/
-def capTicks : Int := maxFramesize / 2
+/-- the frame cap in sample frames: `XMP_MAX_FRAMESIZE / 4` (`XMP_MAX_FRAMESIZE` is in bytes, a frame has up to 4) -/
+def capTicks : Int := maxFramesize / 4
 
 /-- `s->ticksize` after `libxmp_mixer_prepare` -/
 def prepare (freq tfN tfD rrN rrD bpm : Int) : Int :=
@@ -43,8 +43,10 @@ def bufferSize (ticks : Int) (mono bit8 : Bool) : Int :=
   let b := if mono then b else b * 2
   if bit8 then b else b * 2
 
-/-- `info->frame_time` = `(int)(p->frame_time * 1000)` in µs, `p->frame_time = time_factor * rrate / bpm` -/
-def frameTimeUs (tfN tfD rrN rrD bpm : Int) : Int := (1000 * (tfN * rrN)) / ((tfD * rrD) * bpm)
+/-- `info->frame_time` = `p->frame_time * 1000` in µs (saturating conversion to `int`), `p->frame_time = time_factor * rrate / bpm` -/
+def frameTimeUs (tfN tfD rrN rrD bpm : Int) : Int :=
+  let v := (1000 * (tfN * rrN)) / ((tfD * rrD) * bpm)
+  if v ≥ intMax then intMax else v          -- saturates at INT_MAX
 
 /-- bytes cleared in `buf32` by `libxmp_mixer_prepare` -/
 def buf32Bytes (ticks : Int) (mono : Bool) : Int := if mono then ticks * sizeofInt32 else ticks * sizeofInt32 * 2
